@@ -215,9 +215,40 @@ func genSiblingSweep(d *RunDesc, reverse bool) {
 	d.Note = fmt.Sprintf("sibling sweep over %d near-collisions of one %s vector, reverse=%v", len(vecs), kindNames[k], reverse)
 }
 
+// genVolumeRun: the third run of every block pushes some 70,000 distinct valid
+// vectors of one kind through one process (decode, score) and then queries the
+// first 1,500 objects again.  A process-wide cache whose defect only shows beyond
+// a capacity of thousands of entries (eviction that leaves a stale index entry,
+// a table that is rebuilt when it grows) is driven past 2^16 entries.
+func genVolumeRun(d *RunDesc) {
+	epoch := d.RunIndex / poolEpochRuns
+	r := newRng(simrt.Mix(simrt.Mix(d.BaseSeed, 0x701), epoch))
+	k := []int{KV3Env, KV3Env, KV3Temporal, KV2Env, KV3Env, KV2Temporal}[r.intn(6)]
+	d.MapSeed = simrt.Mix(d.Seed, 3)
+	d.MapPolicy = simrt.MapCanonical
+	d.Sched.Policy = simrt.PolicyNone
+	const n = 1<<16 + 3000
+	const keep = 1500
+	ops := make([]Op, 0, n+keep)
+	for i := 0; i < n; i++ {
+		v, _ := genValidVector(r, k)
+		ops = append(ops, Op{K: "dsc", Kind: k, Vec: v, Dst: i + 1})
+	}
+	for i := 0; i < keep; i++ {
+		ops = append(ops, Op{K: "obs", Obj: &Ref{I: i + 1}, Obs: "Score"})
+	}
+	d.Tasks = [][]Op{ops}
+	d.CrossCap = 4000
+	d.Note = fmt.Sprintf("volume run: %d distinct %s vectors in one process, the first %d queried again at the end", n, kindNames[k], keep)
+}
+
 func genC15(d *RunDesc, tier string) {
 	if d.RunIndex%poolEpochRuns < 2 {
 		genSiblingSweep(d, d.RunIndex%poolEpochRuns == 1)
+		return
+	}
+	if d.RunIndex%(4*poolEpochRuns) == 2 || (tier == "thorough" && d.RunIndex%poolEpochRuns == 2) {
+		genVolumeRun(d)
 		return
 	}
 	wl := newRng(simrt.Mix(d.Seed, 1))
